@@ -338,6 +338,9 @@ var widthChoices = []uint32{4, 12, 40, 1<<24 - 1}
 var typChoices = []uint16{1300, 1300, 1302, 1307, 1309, 1400, 1326, 2099, 1301,
 	eoe, eoe, 1327, 1100, 1299, 2100, 1000, 0, 65535, 1305}
 
+// big histories: mostly records that do not complete their event, so that the buffer fills
+var typChoicesBig = []uint16{1300, 1300, 1300, 1302, 1302, 1307, 1309, 1400, 1326, 1301, 1300, 1302, 1303, 1306, 1300, 1302, eoe, 1327, 1100, 1305}
+
 type genCfg struct {
 	windowed bool
 	timeouts []time.Duration
@@ -357,13 +360,33 @@ func genHistory(t *rapid.T, c genCfg) History {
 	h.TimeoutNs = int64(rapid.SampledFrom(c.timeouts).Draw(t, "timeout"))
 	var pool []uint32
 	var width uint32
+	// now and then a big history: dozens of events in flight, buffer sizes around powers of two
+	big := rapid.IntRange(0, 14).Draw(t, "big") == 0
+	poolMin, poolMax, minOps, maxOps := 2, 8, 1, c.maxOps
+	typs := typChoices
+	if big {
+		b := rapid.SampledFrom([]int{140, 300, 70, 20, 600}).Draw(t, "bigsize")
+		poolMin, poolMax, minOps, maxOps = b, 2*b, 3*b, 5*b
+		if rapid.Bool().Draw(t, "maxInFlightBySize") {
+			h.MaxInFlight = rapid.SampledFrom([]int{2 * b, b + 1, b, b - 1, 4 * b, b / 2}).Draw(t, "maxInFlightSized")
+		}
+		typs = typChoicesBig
+		h.MaxInFlight = rapid.SampledFrom([]int{0, 3, 15, 16, 17, 31, 32, 33, 63, 64, 65, 100, 127, 128, 129, 255, 256, 1000}).Draw(t, "maxInFlightBig")
+	}
 	if c.windowed {
 		h.Base = rapid.SampledFrom(baseChoices).Draw(t, "base")
 		width = rapid.SampledFrom(widthChoices).Draw(t, "width")
-		k := rapid.IntRange(2, 8).Draw(t, "pool")
+		if big {
+			width = rapid.SampledFrom([]uint32{1<<24 - 1, 5000, 300}).Draw(t, "widthBig")
+		}
+		k := rapid.IntRange(poolMin, poolMax).Draw(t, "pool")
 		for i := 0; i < k; i++ {
 			var off uint32
-			switch rapid.IntRange(0, 3).Draw(t, "offkind") {
+			offkind := rapid.IntRange(0, 3).Draw(t, "offkind")
+			if big && i >= 8 {
+				offkind = 3 // spread out: many distinct events
+			}
+			switch offkind {
 			case 0:
 				off = rapid.Uint32Range(0, 7).Draw(t, "off") % (width + 1)
 			case 1:
@@ -374,7 +397,7 @@ func genHistory(t *rapid.T, c genCfg) History {
 			pool = append(pool, h.Base+off)
 		}
 	} else {
-		k := rapid.IntRange(2, 8).Draw(t, "pool")
+		k := rapid.IntRange(poolMin, poolMax).Draw(t, "pool")
 		for i := 0; i < k; i++ {
 			var s uint32
 			switch rapid.IntRange(0, 3).Draw(t, "seqkind") {
@@ -390,10 +413,14 @@ func genHistory(t *rapid.T, c genCfg) History {
 			pool = append(pool, s)
 		}
 	}
-	n := rapid.IntRange(1, c.maxOps).Draw(t, "nops")
+	n := rapid.IntRange(minOps, maxOps).Draw(t, "nops")
 	closed := false
+	cursor := 0
 	for i := 0; i < n; i++ {
 		k := rapid.IntRange(0, 99).Draw(t, "opkind")
+		if big {
+			k = 99 - k // rapid favours small numbers: in a big history that shall mean "push"
+		}
 		switch {
 		case k < 6:
 			h.Ops = append(h.Ops, Op{K: opMaintain})
@@ -408,7 +435,14 @@ func genHistory(t *rapid.T, c genCfg) History {
 			closed = true
 		default:
 			var seq uint32
-			if c.windowed {
+			if big && rapid.IntRange(0, 3).Draw(t, "stream") != 3 {
+				// big histories mostly walk through the pool the way a live stream does: ever new events,
+				// locally out of order (sampling alone revisits the same few members again and again)
+				seq = pool[(cursor+rapid.IntRange(0, 12).Draw(t, "ahead"))%len(pool)]
+				if rapid.IntRange(0, 3).Draw(t, "advance") != 3 {
+					cursor++
+				}
+			} else if c.windowed {
 				if rapid.IntRange(0, 9).Draw(t, "fresh") == 0 {
 					seq = h.Base + rapid.Uint32Range(0, width).Draw(t, "off")
 				} else {
@@ -432,7 +466,7 @@ func genHistory(t *rapid.T, c genCfg) History {
 			if c.raw && rapid.IntRange(0, 3).Draw(t, "rawpush") == 0 {
 				kind = opPushRaw
 			}
-			h.Ops = append(h.Ops, Op{K: kind, Seq: seq, Typ: rapid.SampledFrom(typChoices).Draw(t, "typ")})
+			h.Ops = append(h.Ops, Op{K: kind, Seq: seq, Typ: rapid.SampledFrom(typs).Draw(t, "typ")})
 		}
 	}
 	_ = closed
